@@ -90,7 +90,7 @@ def subchecks(tier):
     w = dict(common.full_profile().weights)
     w.update({"custom_dists": 0.6, "batching": 0.5, "inf": 0.3})
     prof = S.Profile(ALLOWED, weights=w, numeric="mixed", max_nodes=3, max_classes=3, plans=("max_time", "max_customers"),
-                     horizon=(5.0, 14.0), budget=600, excluded=common.KNOWN_EXCLUSIONS)
+                     horizon=(5.0, 14.0), budget=600, excluded=common.EXCL["C10"])
     simple = S.Profile(["inf", "capacity", "priorities", "batching", "routing_objects", "self_loops", "ps", "schedule", "slotted"],
                        weights={"ps": 0.15, "schedule": 0.2, "slotted": 0.15, "inf": 0.2}, numeric="mixed", max_nodes=2, max_classes=2,
                        plans=("max_time",), horizon=(4.0, 10.0), budget=300, resumptions=(1, 1))
